@@ -75,6 +75,16 @@ def triple(m, n):
 # running the real code
 # ----------------------------------------------------------------------------------------------
 class Runner:
+    def arr(self, m):
+        """the matrix / column as a numpy array: float64, or - every other time its entries are whole numbers - the INTEGER array
+        a caller would get from np.array([[4, 1, 0], ...]) (same values, another legal form of the input)"""
+        np = self.np
+        flat = [x for row in m for x in (row if isinstance(row, (list, tuple)) else [row])]
+        self.nint = getattr(self, "nint", 0) + 1
+        if flat and all(float(x).is_integer() and abs(x) < 2 ** 50 for x in flat) and self.nint % 2 == 0:
+            return np.array([[int(x) for x in row] if isinstance(row, (list, tuple)) else int(row) for row in m])
+        return np.array(m, dtype=float)
+
     def __init__(self):
         self.np, self.st, self.gd, self.cv = _mods()
         import geodepy.angles as an
@@ -134,7 +144,7 @@ class Runner:
                 else:
                     a = "VcvC2L" if frame == "cart" else "VcvL2C"
                     f = st.vcv_cart2local if frame == "cart" else st.vcv_local2cart
-                    arr = np.array(v, dtype=float)
+                    arr = self.arr(v)
                     if kind == "col":
                         arr = arr.reshape(3, 1)
                     ev = {"a": a, "exc": "", "shape": "3x3" if kind == "vcv" else "3x1", "oshape": "",
@@ -170,8 +180,7 @@ class Runner:
                     ev["y"] = [enc(a), enc(b), enc(rue)]
                     ev["aux"] = [enc(math.sin(math.radians(ori))), enc(math.cos(math.radians(ori)))]
                     ev["ori"] = ori
-                self._call(ev, lambda: st.relative_error(lat, lon, np.array(v1, dtype=float), np.array(v2, dtype=float),
-                                                         np.array(c12, dtype=float)), post)
+                self._call(ev, lambda: st.relative_error(lat, lon, self.arr(v1), self.arr(v2), self.arr(c12)), post)
             else:
                 raise ValueError(op)
             tr["ev"].append(ev)
@@ -186,7 +195,7 @@ class Runner:
             ev["y"] = [enc(a), enc(b)]
             ev["aux"] = [enc(math.sin(math.radians(ori))), enc(math.cos(math.radians(ori)))]
             ev["ori"] = ori
-        return self._call(ev, lambda: st.error_ellipse(np.array(V, dtype=float)), post)
+        return self._call(ev, lambda: st.error_ellipse(self.arr(V)), post)
 
     def ellipse_trace(self, V, design):
         return {"kind": "ellipse", "pyth": [], "V": V, "design": list(design), "ev": [self.ellipse_event(V, list(design))]}
